@@ -12,6 +12,7 @@ CONSTANTS
   BottomRule = "l0limit"
   LevelLoop = "once"
   RegisterRule = "first"
+  MaxFail = 1
   MaxSteps = 9
   AllowClose = TRUE
 INVARIANTS TypeOK FlushScheduled CompactionScheduled ImmBounded NeverStuck
